@@ -184,6 +184,8 @@ def binop(op, l, r):
     if op == "-":
         # a[:, np.newaxis] - b[np.newaxis, :]  (or - b for a 1-d b) is the outer difference np.subtract.outer(a, b)
         ca, cb = _column_of(l), _row_of(r)
+        if ca is not None and cb is None and r.op in ("param", "loopvar", "iter") :
+            cb = r  # a column minus a plain 1-d array broadcasts the same way
         if ca is not None and cb is not None:
             return call(ext("np.subtract.outer"), (ca, cb))
     return mk("bin", op, l, r)
